@@ -1,6 +1,7 @@
 package props
 
 import (
+	"fmt"
 	"os"
 	"path/filepath"
 	"sort"
@@ -75,12 +76,17 @@ func c11One(rc *core.RunCtx, src string, mode py.CompileMode, kind string) {
 					obs = "SyntaxError not carried by *py.Exception"
 				} else {
 					fnm, ok1 := ex.Dict["filename"].(py.String)
-					_, ok2 := ex.Dict["lineno"].(py.Int)
-					_, ok3 := ex.Dict["offset"].(py.Int)
+					ln, ok2 := ex.Dict["lineno"].(py.Int)
+					off, ok3 := ex.Dict["offset"].(py.Int)
 					if !ok1 || !ok2 || !ok3 || string(fnm) != "<c11>" {
 						ok = false
 						obs = typ + " without filename/lineno/offset: " + msg
 						outcome = typ + "-nolocation"
+					} else if nl := strings.Count(src, "\n") + strings.Count(src, "\r") + 2; ln < 0 || int(ln) > nl || off < 0 {
+						// the location must be inside the text (one line of slack for errors at end of input)
+						ok = false
+						obs = fmt.Sprintf("%s located outside the text: line %d offset %d (text has %d line ends)", typ, ln, off, nl-2)
+						outcome = typ + "-badlocation"
 					}
 				}
 			}
